@@ -513,6 +513,29 @@ Proof.
   rewrite (last_ext _ _ (zero_addon_cumulative a Hc Ho He Hh Hp) 0 0 (Qeq_refl 0)), Hc, Ho, !Qplus_0_r. reflexivity.
 Qed.
 
+(* ---------- a zero-rate ITC / zero fees / zero incentives / zero grant, carried through to the cash flow ---------- *)
+Definition with_ccap (c : cf_in) (x : Q) : cf_in :=
+  {| ci_kind := ci_kind c; ci_cy := ci_cy c; ci_ccap := x; ci_coam := ci_coam c; ci_carbon := ci_carbon c;
+     ci_gi := ci_gi c; ci_ni := ci_ni c; ci_eE := ci_eE c; ci_eH := ci_eH c; ci_eC := ci_eC c;
+     ci_pE := ci_pE c; ci_pH := ci_pH c; ci_pC := ci_pC c; ci_pCarb := ci_pCarb c |}.
+Lemma cashflow_ccap_ext c x y : x == y -> Forall2 Qeq (total_cashflow (with_ccap c x)) (total_cashflow (with_ccap c y)).
+Proof.
+  intros H. unfold total_cashflow. apply Forall2_app.
+  - cbn [with_ccap ci_cy]. apply repeat_F2eq. unfold capex_year. cbn [with_ccap ci_cy ci_ccap]. now rewrite H.
+  - unfold total_ops. cbn [with_ccap ci_kind ci_eE ci_eH ci_eC ci_pE ci_pH ci_pC ci_carbon ci_gi ci_ni ci_pCarb ci_coam].
+    apply F2eq_refl.
+Qed.
+Theorem neutral_adjustments_cashflow (k : cost_in) (c : cf_in) (r : Q) :
+  k_ritc k == 0 -> k_flat k == 0 -> k_other k == 0 -> k_grant k == 0 ->
+  Forall2 Qeq (total_cashflow (with_ccap c (ccap k))) (total_cashflow (with_ccap c (ccap_pre k))) /\
+  npv r (total_cashflow (with_ccap c (ccap k))) == npv r (total_cashflow (with_ccap c (ccap_pre k))) /\
+  payback (running (total_cashflow (with_ccap c (ccap k)))) == payback (running (total_cashflow (with_ccap c (ccap_pre k)))).
+Proof.
+  intros H1 H2 H3 H4. pose proof (cashflow_ccap_ext c _ _ (neutral_adjustments k H1 H2 H3 H4)) as Hcf.
+  split; [assumption|]. split; [now apply npv_ext|].
+  apply payback_ext. unfold running. apply running_from_ext; [assumption | reflexivity].
+Qed.
+
 (* homogeneity of the code's own (vector) computation, through C01 *)
 Lemma teq_sym a b : teq a b -> teq b a.
 Proof. unfold teq. intros (H1 & H2 & H3). repeat split; symmetry; assumption. Qed.
